@@ -96,8 +96,13 @@ def run(repo, run, tier):
 
 def shear_shape(repo, run, r4, upd, stepfn, dcol, kcol):
     rel = extract.ITYPES
-    # (a) update is aux * ( T[stage,d]*drift_mask + T[stage,k]*kick_mask )
-    v = upd.value
+    # (a) update is aux * ( T[stage,d]*drift_mask + T[stage,k]*kick_mask )   (locals abbreviating the coefficients are inlined)
+    from ..sym import inline_locals
+    env_ = {k: v_ for k, v_ in inline_locals(stepfn).items() if k != "aux" and not isinstance(v_, ast.Call)}
+    v = extract._subst(upd.value, env_)
+    for n_ in ast.walk(v):
+        for ch in ast.iter_child_nodes(n_):
+            ch._parent = n_
     ok = False
     stage_names = set()
     if isinstance(v, ast.BinOp) and isinstance(v.op, ast.Mult):
